@@ -86,6 +86,13 @@ def oracle(ctx, case, io):
         if res.get("err") and not st.get("may_fail"):
             ctx.violation("collection failed: %s" % res["err"][:200], hist(), "C06:gc-error")
             continue
+        # referrers whose subject this pass removed go with it (ReferrersWithSubj): the response kept for the subject is not
+        # spared by the grace period - it is an index entry, not an upload
+        if dflt(pol.get("withsubj"), True):
+            for s_, lst in (post.get("refs") or {}).items():
+                if pre["blob"].get(s_) == 200 and post["blob"].get(s_) != 200 and lst:
+                    ctx.violation("the collection removed %s but kept the referrers response recorded for it (still listing %s)" % (s_[:19], [x[:19] for x in lst]),
+                                  hist(subject=s_), "C06:response-of-removed-subject-kept")
         # no index entry without content
         for d, (s, errs) in post["man"].items():
             if s != 200 and "MANIFEST_BLOB_UNKNOWN" in (errs or []):
@@ -145,8 +152,9 @@ def make_cases(ctx, first):
     for i in range(n):
         variant = i % 4
         pol = dict(EXACT) if variant in (0, 3) else pols[(i // 4) % len(pols)]
-        store = ("mem", "dir")[(i // 2) % 2] if variant != 3 else "dir"
-        emptyrepo = variant == 3 and rng.random() < 0.8
+        quiet = variant == 3 and (i // 4) % 3 == 2          # memory store: a store-wide pass after a quiet period and a re-tag
+        store = ("mem", "dir")[(i // 2) % 2] if variant != 3 else ("mem" if quiet else "dir")
+        emptyrepo = variant == 3 and not quiet and rng.random() < 0.8
         conf = mkconf(store=store, emptyrepo=emptyrepo, **pol)
         repos = ["a"] if variant != 3 else ["a", "a/b", "c"]
         w = gcgen.GCWorld(rng, conf, repos)
@@ -173,6 +181,20 @@ def make_cases(ctx, first):
                         w.push(repo, twin, MT_OCI_M, list(w.g[repo].man[d0]["refs"]), tag="t2" if w.g[repo].tags.get("t2") != d0 else "t1", kind="image")
                         w.add(blob_delete(repo, d0))
                 w.age(repo, "all")
+                tg_ = w.g[repo].tags
+                imgs_ = [d for d in sorted(set(tg_.values())) if w.g[repo].man.get(d, {}).get("kind") == "image" and not w.g[repo].man[d].get("subject")]
+                if imgs_ and rng.random() < 0.3:
+                    # an old image gets a referrer (young), then the image is deleted and a collection runs inside the referrer's
+                    # grace period; later everything is old
+                    s0 = rng.choice(imgs_)
+                    w.image(repo, tag=None, subject=s0, artifact_type=rng.choice(gen.ATYPES))
+                    for t_ in [t_ for t_, x_ in list(tg_.items()) if x_ == s0]:
+                        w.add(manifest_delete(repo, t_))
+                        tg_.pop(t_, None)
+                    w.add(manifest_delete(repo, s0))
+                    gcn += 1
+                    w.collect(repo, gcn)
+                    w.age(repo, "all")
                 gcn += 1
                 w.collect(repo, gcn)
                 w.steps[-1 - len([s for s in w.steps if s.get("gcprobe") == ("post", gcn)])]["all_old"] = True
@@ -181,6 +203,39 @@ def make_cases(ctx, first):
                 gk = [k for k, s in enumerate(w.steps) if s.get("gcid") == gcn][0]
                 w.steps[gk]["second"] = True
                 w.steps[gk]["all_old"] = True
+        elif quiet:
+            # the ticker's pass skips repositories that were not modified since the previous pass: moving a tag to a manifest that
+            # is already stored modifies the repository (the manifest it pointed to becomes garbage)
+            for repo in w.repos:
+                w.age(repo, "all")
+            w.add(dict(kind="gcpass", impl=dict(op="gcpass", secs=0), model="(skip)"))
+            w.add(special("sleep", secs=0.3))
+            target = "a"
+            gt = w.g[target]
+            imgs = [d for d in sorted(gt.man) if not gt.man[d].get("subject")]
+            if not gt.tags or len(imgs) < 2:
+                w.image(target, tag="t1")
+                w.image(target, tag="t2")
+                imgs = [d for d in sorted(gt.man) if not gt.man[d].get("subject")]
+                w.age(target, "all")
+                w.add(dict(kind="gcpass", impl=dict(op="gcpass", secs=0), model="(skip)"))
+                w.add(special("sleep", secs=0.3))
+            tg = rng.choice(sorted(gt.tags))
+            others = [d for d in imgs if d != gt.tags[tg]] or imgs
+            d2 = rng.choice(others)
+            w.add(manifest_put(target, tg, gt.bytes[d2], ctype=gt.man[d2]["mt"]))
+            gt.tags[tg] = d2
+            w.age(target, "all")
+            for repo in w.repos:
+                w.probe_gc(repo, ("pre", 100 + w.repos.index(repo)))
+            w.add(dict(kind="gcpass", impl=dict(op="gcpass", secs=0.1), model="(skip)"))
+            for repo in w.repos:
+                w.probe_gc(repo, ("post", 100 + w.repos.index(repo)))
+                w.add(dict(gcgen.gc_step(repo), gcid=100 + w.repos.index(repo), tags=dict(w.g[repo].tags), all_old=True, may_fail=True))
+                gcn += 1
+                w.probe_gc(repo, ("pre", 200 + gcn))
+                w.add(dict(gcgen.gc_step(repo), gcid=200 + gcn, tags=dict(w.g[repo].tags), second=True, may_fail=True))
+                w.probe_gc(repo, ("post", 200 + gcn))
         else:
             # store-wide pass over healthy, emptied, corrupt and never-created repositories (directory store)
             target = "a"
